@@ -9,7 +9,7 @@ a = json.load(open(f"{d}/agent_meta.json"))
 rd = lambda f: open(f"{d}/{f}").read().strip() if os.path.exists(f"{d}/{f}") else ""
 out = open(f"/tmp/mrepo/{tag}.out").read()
 viol = [l for l in out.split("\n") if l.startswith("VIOLATION")]
-refuted = sorted(set(re.findall(r"refuted obligation in (\w+)", out)))
+refuted = sorted(set(re.findall(r"refuted obligation in (\w+)", out))) or ["c26_generated_stub_compiles: " + x for x in re.findall(r"refuted obligation for schema (\S+?):", out)[:6]]
 summ = [l for l in out.split("\n") if l.startswith(f"[{P}/") and "harnesses=" in l]
 m = {
  "property": P, "summary": a.get("summary"), "needs_to_manifest": a.get("needs_to_manifest"), "files": a.get("files"),
